@@ -170,6 +170,17 @@ func (r result) verdict() string {
 }
 
 // compileOnce parses the texts in the given order with shared interners and compiles them.
+var filters = []struct {
+	name string
+	f    compile.SchemaFilter
+}{
+	{"none", nil}, {"none", nil}, {"IsConfig", compile.IsConfig}, {"IsConfigOrState", compile.IsConfigOrState()},
+	{"IncludeState(false)", compile.IncludeState(false)}, {"IsState", compile.IsState},
+}
+
+// the schema filter of the current case (an explicit input: the same for the reference run and every other run)
+var curFilter compile.SchemaFilter
+
 func compileOnce(texts map[string]string, order []string, fc compile.FeaturesChecker, ex compile.Extensions, skipUnknown bool, wantDump bool) (r result) {
 	defer func() {
 		if p := recover(); p != nil {
@@ -194,9 +205,9 @@ func compileOnce(texts map[string]string, order []string, fc compile.FeaturesChe
 	}
 	var ms schema.ModelSet
 	if ex == nil {
-		ms, r.err = compile.CompileParseTrees(nil, mods, fc, skipUnknown, nil)
+		ms, r.err = compile.CompileParseTrees(nil, mods, fc, skipUnknown, curFilter)
 	} else {
-		ms, r.err = compile.CompileParseTrees(ex, mods, fc, skipUnknown, nil)
+		ms, r.err = compile.CompileParseTrees(ex, mods, fc, skipUnknown, curFilter)
 	}
 	if r.err == nil && wantDump {
 		if ms == nil {
@@ -273,9 +284,12 @@ func (w world) RunCase(t *tape.Tape, st *super.Stats) *super.Violation {
 	// flag, not part of "any set of parsed modules x orders"; it is not exercised
 	// (see DESIGN.md section 6, observation O-1: nil-module dereferences in that mode).
 	skipUnknown := false
+	fi := t.Draw(len(filters))
+	curFilter = filters[fi].f
+	inc("filter:" + filters[fi].name)
 	setDesc := func() string {
 		var b strings.Builder
-		fmt.Fprintf(&b, "ill-formedness operators: %v; enabled features: %v; skipUnknown=%v\n", set.Ops, set.Features, skipUnknown)
+		fmt.Fprintf(&b, "ill-formedness operators: %v; enabled features: %v; skipUnknown=%v; schema filter: %s\n", set.Ops, set.Features, skipUnknown, filters[fi].name)
 		for _, n := range canonOrder {
 			fmt.Fprintf(&b, "----- %s.yang\n%s", n, texts[n])
 		}
@@ -351,7 +365,10 @@ func (w world) RunCase(t *tape.Tape, st *super.Stats) *super.Violation {
 			simrt.Order = nil
 			func() {
 				defer func() { recover() }()
+				save := curFilter
+				curFilter = nil
 				compileOnce(other.Texts(), other.Names(), feats{}, nil, false, false)
+				curFilter = save
 			}()
 			inc("fault:history-compile")
 		}
